@@ -21,12 +21,12 @@ class Spec:
 
     def strategy(self, tier):
         from hypothesis import strategies as st
-        o = {"p_csum": 35}
+        o = {"p_csum": 35, "weights": {"crash": 6}}
         # a second family dense in checksummed targets and source edits with longer histories: staleness that
         # needs "out-of-band rebuild of the consumer, then another edit" lives here
         d = {"p_failflag": 5, "p_csum": 60, "p_always": 5, "p_ifc": 5, "min_ops": 8, "max_ops": 16,
              "max_cmd_targets": 1, "p_stampif": 35, "p_focus": 40,
-             "weights": {"cmd": 45, "edit": 34, "stampflag": 8, "failflag": 1, "setdo": 3, "adddo": 1, "rmdo": 1, "rmtarget": 6,
+             "weights": {"cmd": 45, "edit": 34, "stampflag": 8, "crash": 5, "failflag": 1, "setdo": 3, "adddo": 1, "rmdo": 1, "rmtarget": 6,
                          "redo": 4, "mkpath": 1, "rmpath": 1, "ext": 1, "touch": 3}}
         if tier == "thorough":
             o.update(max_targets=14, max_ops=30)
